@@ -265,6 +265,7 @@ pub struct Package<'a> {
 
 impl Aml for Package<'_> {
     fn to_aml_bytes(&self, sink: &mut dyn AmlSink) {
+        assert!(self.children.len() <= 255, "Package cannot have more than 255 elements");
         let mut bytes = vec![self.children.len() as u8];
         for child in &self.children {
             child.to_aml_bytes(&mut bytes);
